@@ -144,6 +144,15 @@ class Ctx:
                 await asyncio.sleep(sdur)
         except asyncio.CancelledError:
             self.log("shut-cancel", node)
+            scdur = self.cfg.get("scdur", [0] * self.n)[node - 1]
+            if scdur > 0:
+                deadline = self.loop.vtime + scdur
+                while self.loop.vtime < deadline:
+                    try:
+                        await asyncio.sleep(deadline - self.loop.vtime)
+                    except asyncio.CancelledError:
+                        self.log("shut-recancel", node)
+                self.log("shut-cancel-done", node)
             raise
         self.log("shut-done", node)
 
@@ -363,8 +372,8 @@ def build(ctx):
 
 def horizon_of(cfg):
     tot = 10
-    for key in ("dur", "sdur", "cdur", "tmo", "stmo"):
-        tot += sum(x for x in cfg[key] if x > 0)
+    for key in ("dur", "sdur", "cdur", "scdur", "tmo", "stmo"):
+        tot += sum(x for x in cfg.get(key, []) if x > 0)
     return tot
 
 
